@@ -291,3 +291,44 @@ Definition subst_okb (member head : N) (affil : list N) (hb : eblock) (ht : N) (
        forallb (fun x => negb (blocked (eb_types hb) (tc_method x)) &&
                          forallb (fun y => negb (blocked (tc_block y) (tc_method x))) (tl pre ++ [e])) pre
    end).
+
+(** * Derivation Valid (Restriction, Complex) 3.4.6, clauses 2-4: attribute uses and attribute wildcard *)
+(** an <attribute> of the restriction / an attribute use of the base type; [ad_type] numbers the simple type *)
+Record adecl := { ad_name : qname; ad_use : use; ad_vc : vc; ad_type : N }.
+Fixpoint find_adecl (q : qname) (l : list adecl) : option adecl :=
+  match l with [] => None | d :: r => if qname_eqb (ad_name d) q then Some d else find_adecl q r end.
+Definition is_required (u : use) : bool := match u with URequired => true | _ => false end.
+(** clause 2.1.3: the base's value constraint is absent or default, or both are fixed with the same value *)
+Definition vc_fixed_ok (b r : vc) : bool :=
+  match b with VFixed v => match r with VFixed w => str_eqb v w | _ => false end | _ => true end.
+(** 3.10.6 Wildcard Subset (second edition) *)
+Definition wc_subset (sub super : nsc) : bool :=
+  match super with
+  | NsAny => true
+  | NsNot v => match sub with
+               | NsNot u => (u =? v)%N
+               | NsSet l => negb (mem_uri v l) && negb (mem_uri absent l)
+               | NsAny => false
+               end
+  | NsSet ls => match sub with NsSet l => forallb (fun x => mem_uri x ls) l | _ => false end
+  end.
+(** one <attribute> of the restriction against the base's attribute uses [base] (none prohibited) and wildcard [bw];
+    [tder r b] = type r is validly derived from type b.  A prohibited declaration removes the use: not allowed when
+    the base requires the attribute (clause 3), otherwise nothing to check *)
+Definition adecl_ok (tder : N -> N -> bool) (base : list adecl) (bw : option nsc) (r : adecl) : bool :=
+  match ad_use r with
+  | UProhibited => match find_adecl (ad_name r) base with Some b => negb (is_required (ad_use b)) | None => true end
+  | _ =>
+      match find_adecl (ad_name r) base with
+      | Some b => (negb (is_required (ad_use b)) || is_required (ad_use r)) &&
+                  tder (ad_type r) (ad_type b) && vc_fixed_ok (ad_vc b) (ad_vc r)
+      | None => match bw with Some w => wildcard_allows w (fst (ad_name r)) | None => false end
+      end
+  end.
+Definition attr_restriction_ok (tder : N -> N -> bool) (base : list adecl) (bw : option nsc)
+                               (decls : list adecl) (dw : option nsc) : bool :=
+  forallb (adecl_ok tder base bw) decls &&
+  match dw with
+  | None => true
+  | Some wd => match bw with Some wb => wc_subset wd wb | None => false end
+  end.
